@@ -16,6 +16,11 @@ Kernels (DESIGN.md section 4, C16):
 
 All symbolic variables are selectors over finite catalogues (DESIGN.md: [selector]): the certificate is the
 exhaustion of the path tree.
+
+Regions (known_findings.json) in which exactly violates the statement on the pinned tree:
+  junit-act-syntax-error          JUnit reporter + a case that ends with the act-phase SYNTAX_ERROR: shown as a passing testcase
+  case-listed-twice               a case file named by two lines of one [cases] section is processed once per line
+  reference-through-regular-file  a reference like `1.case/x` (below a regular file): NotADirectoryError escapes, no INVALID_SUITE
 """
 from typing import List
 
@@ -104,6 +109,8 @@ def _pre_k1(k0: int, k1: int, k2: int) -> bool:
         return False
     if 'first' in c and k0 != 0:
         return False
+    if 'k0_range' in c and not (c['k0_range'][0] <= k0 < c['k0_range'][1]):
+        return False
     if c['junit'] and ob.excluded(REGION_JUNIT_ACT_SYNTAX_ERROR):
         if L.K_ACT_SYNTAX_ERROR in _k1_kinds(c, k0, k1, k2):
             return False
@@ -138,7 +145,6 @@ def k1_junit(k0: int, k1: int, k2: int) -> bool:
     # list) that the JUnit reporter writes to stderr through the progress reporter's own sub-suite reporter
     ev, rest = L.parse_progress(obs.err)
     ok = ok and ev == L.expected_events_of(exp) and rest == []
-    ok = ok and obs.exit_code == 0
     ok = ok and obs.processed == [L.FAKE_ROOT / cn for _s, cs, _r in exp for cn, _k in cs]
     return ob.post(ok)
 
@@ -171,10 +177,14 @@ def _layout_text(layout) -> str:
     return s
 
 
-def _k1_ob(name, layout, junit, timeout, first=None):
+def _k1_ob(name, layout, junit, timeout, first=None, k0_range=None):
     n = L.n_cases_of(layout)
     c = dict(layout=layout, junit=junit)
     what = 'every assignment of the 14 outcomes (%s) to its %d case(s)' % (', '.join(L.KINDS), n)
+    if k0_range is not None:
+        c['k0_range'] = k0_range
+        name += ':k0=%d..%d' % (k0_range[0], k0_range[1] - 1)
+        what += ' in which the first case processed ends with one of ' + ', '.join(L.KINDS[k0_range[0]:k0_range[1]])
     if first is not None:
         c['first'] = first
         name += ':first=%d' % first
@@ -197,7 +207,12 @@ def _k1_obligations(tier: str) -> List[Ob]:
         for name, layout in LAYOUTS_N01:
             obs.append(_k1_ob(name, layout, junit, 120 * f))
         for name, layout in LAYOUTS_N2_QUICK + (LAYOUTS_N2_THOROUGH if tier == 'thorough' else []):
-            obs.append(_k1_ob(name, layout, junit, 300 * f))
+            if junit:
+                # split in two for wall-clock time
+                obs.append(_k1_ob(name, layout, junit, 450, k0_range=(0, 7)))
+                obs.append(_k1_ob(name, layout, junit, 450, k0_range=(7, L.N_KINDS)))
+            else:
+                obs.append(_k1_ob(name, layout, junit, 300))
         if tier == 'thorough':
             for name, layout in LAYOUTS_N3_THOROUGH:
                 for first in range(L.N_KINDS):
@@ -249,10 +264,11 @@ FILES = {'1.case': '', '2.case': '', '3.case': '', 'd/x.case': '', 'd/y.case': '
 
 # catalogue of lines of a [suites] section of a suite file in the fixture's top directory
 SL = ('', 'a.suite', 'b.suite', 'd', 'd/exactly.suite', '*[ab].suite', '*.suite', 'nope.suite', 'e', 'r.suite',
-      "'a.suite'", 'a.suite b.suite', '*/exactly.suite', '1.case/x', '[ab].suite', "'*[ab].suite'", '?.suite')
+      "'a.suite'", 'a.suite b.suite', '*/exactly.suite', '1.case/x', '[ab].suite', "'*[ab].suite'", '?.suite',
+      'd/../a.suite')
 # catalogue of lines of a [cases] section of a suite file in the fixture's top directory
 CL = ('', '1.case', '2.case', '*.case', '*[23].case', '?.case', 'nope.case', "'*.case'", 'd', 'd/x.case', '**/*.case',
-      'd/*.case', '*', '1.case 2.case', '1.case/x', '*.nomatch', '[12].case', '"1.case"')
+      'd/*.case', '*', '1.case 2.case', '1.case/x', '*.nomatch', '[12].case', '"1.case"', 'd/../1.case')
 # text that makes a suite file syntactically invalid
 BROKEN = ('[nosuch]\n', '[conf]\nnosuchinstruction\n', '[suites]\n\'unterminated\n', '[cases]\n1.case superfluous\n',
           '[cases\n', '[conf]\npreprocessor =\n', '[setup]\nnosuchinstruction\n')
@@ -317,7 +333,7 @@ def _sc_broken(x, y):
 
 def _sc_dir_arg(x, y):
     """the suite is given as a directory on the command line (default suite file); its [suites] holds SDL[x]"""
-    sdl = ('', 's.suite', '*.suite', 'exactly.suite', 'sub', 'sub/exactly.suite', 'nope')
+    sdl = ('', 's.suite', '*.suite', 'exactly.suite', 'sub', 'sub/exactly.suite', 'nope', '../d/s.suite', '../d')
     return dict(specs={'d/exactly.suite': _S([sdl[x]], ['*.case']), 'd/s.suite': _S([], ['y.case']),
                        'd/sub/exactly.suite': _S([], ['w.case'])},
                 files={'d/sub/w.case': ''}, root='d/exactly.suite', via_dir_arg=True)
@@ -339,7 +355,7 @@ SCENARIOS = {
     'sub-cases': (_sc_sub_cases, len(CL), 4, 2),
     'globs': (_sc_globs, 1, 1, 6),
     'broken': (_sc_broken, len(BROKEN), 3, 1),
-    'dir-arg': (_sc_dir_arg, 7, 1, 2),
+    'dir-arg': (_sc_dir_arg, 9, 1, 2),
     'outcome': (_sc_outcome, L.N_KINDS, 3, 1),
 }
 
@@ -428,7 +444,8 @@ def _k2_ob(name, scenario, timeout, bound, junit=False, **case):
 
 OUTSIDE_K2 = (
     'the text of the error message of an invalid suite (stderr)',
-    'references that contain `..`, symbolic links, unreadable (permission) files, file names with special characters',
+    'symbolic links, unreadable (permission) files, file names with special characters; how a file name is spelled in the '
+    'reports (names are compared after removing `x/..`)',
     'a root suite file that does not exist (a command line usage error, exit 64)',
     'hierarchies deeper than 3 suite files / wider than the catalogue lines allow',
     'the same case file listed by two different suites counts as two listed cases (each is processed once per listing suite)',
@@ -529,9 +546,9 @@ def _k2_obligations(tier: str) -> List[Ob]:
                           xs=_idx(SL, '', 'a.suite', 'd', '*[ab].suite', '*.suite', 'nope.suite')))
         obs.append(_k2_ob('sub-suites', 'sub-suites', T,
                           'root lists a.suite, b.suite; [suites] of a.suite holds one of 6 lines of SL, that of b.suite one '
-                          'of 4 (reached twice, cycle, self reference, directory, missing, glob)',
+                          'of 5 (reached twice - also under another spelling -, cycle, self reference, directory, missing, glob)',
                           xs=_idx(SL, '', 'b.suite', 'r.suite', 'a.suite', 'd', 'nope.suite'),
-                          ys=_idx(SL, '', 'a.suite', 'd', '*.suite')))
+                          ys=_idx(SL, '', 'a.suite', 'd', '*.suite', 'd/../a.suite')))
         obs.append(_k2_ob('chain', 'chain', T, 'chain r.suite -> a.suite -> b.suite; [suites] of b.suite holds one line: '
                           + all_sl, ng=1))
         obs.append(_k2_ob('root-cases', 'root-cases', T,
@@ -578,8 +595,8 @@ def _k2_obligations(tier: str) -> List[Ob]:
     obs.append(_k2_ob('broken', 'broken', T, 'each of %d syntax errors %r in the root suite file, in a sub-suite or in a '
                                              'sub-sub-suite' % (len(BROKEN), BROKEN)))
     obs.append(_k2_ob('dir-arg', 'dir-arg', T,
-                      'suite given as a directory on the command line; its default suite file lists one of 7 references '
-                      '(plain, glob matching itself, itself, sub directory, missing); ' + order2))
+                      'suite given as a directory on the command line; its default suite file lists one of 9 references '
+                      '(plain, glob matching itself, itself, sub directory, missing, through `..`); ' + order2))
     if tier == 'thorough':
         obs.append(_k2_ob('broken:junit', 'broken', T, 'each of %d syntax errors in the root suite file, in a sub-suite or '
                                                        'in a sub-sub-suite' % len(BROKEN), junit=True))
@@ -608,8 +625,11 @@ def _k3_obligations(tier: str) -> List[Ob]:
     for junit in (False, True):
         j = ':junit' if junit else ':progress'
         if tier == 'quick':
-            obs.append(_k3_ob('sub' + j, 600, 'r.suite [PASS case, PASS case] listing s.suite [one real case file for each of: %s]' % names,
-                              junit, k1s=[0]))
+            half = len(REAL_CASES) // 2
+            for h, k0s in enumerate((list(range(half)), list(range(half, len(REAL_CASES))))):
+                obs.append(_k3_ob('sub-%d%s' % (h, j), 400,
+                                  'r.suite [PASS case, PASS case] listing s.suite [one real case file for each of: %s]' % (
+                                      ', '.join(REAL_CASES[i][0] for i in k0s)), junit, k0s=k0s, k1s=[0]))
         else:
             for b, cb in enumerate(REAL_CASES):
                 obs.append(_k3_ob('%d%s' % (b, j), 900,
@@ -687,11 +707,22 @@ def selftest(tier) -> int:
 
 
 ASSUMPTIONS = [
-    'the outcomes of the cases are independent of the suite machinery: the case processor is a stub that returns, '
-    'per case file, a result object produced by exactly_lib itself (real executor on stub instructions / real '
-    'ProcessorFromAccessorAndExecutor on stub parts)',
+    'K1, K2: the outcome of a case does not depend on the suite machinery - the case processor is a stub that returns, per '
+    'case file, a result object produced by exactly_lib itself (real executor on stub instructions / real '
+    'ProcessorFromAccessorAndExecutor on stub parts); K3 removes the stub for the outcomes a case file can produce',
+    'glob yields every match exactly once, in an unspecified order (the order is symbolic in K2)',
+    'a deterministic clock replaces datetime.now in the suite machinery (CrossHair makes time symbolic); PurePath.__hash__ is '
+    'computed by str.__hash__ (CrossHair 0.0.110 short-circuits the builtin hash() called inside pathlib); sandbox '
+    'directories and the preprocessor\'s temporary files get counter-based names (CrossHair makes random symbolic)',
+    'all symbolic variables are selectors over finite catalogues: the verdict is the exhaustion certificate of the path tree',
+    'the statement "each listed test case exactly once" is read literally (harness/_C16_lib.LITERAL_ONCE_EACH); the same '
+    'case file listed by two different suites counts as two listed cases',
 ]
 
 OUTSIDE = [
-    'timing fields, time stamps, host name; XML formatting beyond the counted attributes',
+    'timing fields, time stamps, host name; XML formatting beyond the counted attributes and the testcase / failure / error elements',
+    'the exit code of a valid run and the stdout of an invalid run under the JUnit reporter (not part of the statement)',
+    'suite hierarchies outside the generated family: more than 4 suite files, depth > 3, reference lines outside the '
+    'catalogues SL / CL, symbolic links, permissions',
+    'marker files written by the cases: executions are counted at the case processor (a recording wrapper in K3)',
 ]
